@@ -1,11 +1,6 @@
 SPECIFICATION Spec
 CONSTANTS
-  Topos = {"one", "two"}
-  Lays = {"S", "SB"}
-  Fills = {"n", "e"}
-  MaxSlots = 1
-  Menus <- cMenusSmall
-  ArgSel = "all"
+  Universes <- cSmoke
   Fixes = {}
 INVARIANTS Emit
 CHECK_DEADLOCK FALSE
